@@ -214,6 +214,23 @@ theorem povm_matrix_variants_agree {d n : Nat} (B : Basis CRat d n) (vecs : List
     simp only []
     rw [← this]
 
+/-- tuple access of a tensor-product POVM: the multi-index is resolved to the **row-major** serial index
+(first factor slowest: `(i, j) ↦ i·n₂ + j`, `(i, j, k) ↦ (i·n₂ + j)·n₃ + k`), out-of-range components and
+tuples of the wrong length are errors, and `matrix_with_sparsity(tuple) = matrix(tuple)` on every input. -/
+theorem povm_tuple_access {d n : Nat} (B : Basis CRat d n) (vecs : List (Vec CRat n)) (lens idx : List Nat) :
+    povmMatrixSparseMd B vecs lens idx = povmMatrixMd B vecs lens idx ∧
+    (∀ a b i j, i < a → j < b → mdSerial [a, b] [i, j] = .ok (i * b + j)) ∧
+    (∀ a b c i j k, i < a → j < b → k < c → mdSerial [a, b, c] [i, j, k] = .ok ((i * b + j) * c + k)) ∧
+    (lens.length ≠ idx.length → mdSerial lens idx = .error .lenMismatch) := by
+  refine ⟨?_, ?_, ?_, ?_⟩
+  · unfold povmMatrixSparseMd povmMatrixMd
+    cases mdSerial lens idx with
+    | error e => rfl
+    | ok s => exact povm_matrix_variants_agree B vecs s
+  · intro a b i j hi hj; simp [mdSerial, mdSerialAux, hi, hj]
+  · intro a b c i j k hi hj hk; simp [mdSerial, mdSerialAux, hi, hj, hk]
+  · intro h; simp [mdSerial, h]
+
 /-! ## change of basis -/
 
 /-- `convert_vec` re-expresses the same operator: `Σ_b w_b T_b = Σ_a v_a F_a` when the target
